@@ -154,6 +154,19 @@ impl Recorder {
         }
     }
 
+    /// Writes the case line(s) about to be executed to `<out>/CURRENT.case` (overwritten each time). If the
+    /// process dies inside the code under test (abort, stack overflow), `bin/check` reports that case.
+    /// For a history, pass the whole block so far.
+    pub fn announce(&self, lines: &str) {
+        let _ = std::fs::create_dir_all(&self.out_dir);
+        let _ = std::fs::write(self.out_dir.join("CURRENT.case"), lines);
+    }
+
+    /// The run finished normally: nothing is "current" any more.
+    pub fn announce_done(&self) {
+        let _ = std::fs::remove_file(self.out_dir.join("CURRENT.case"));
+    }
+
     pub fn stat(&mut self, k: &str) {
         *self.stats.entry(k.to_string()).or_insert(0) += 1;
     }
@@ -192,6 +205,7 @@ impl Recorder {
 
     pub fn finish(&self) -> std::io::Result<()> {
         std::fs::create_dir_all(&self.out_dir)?;
+        self.announce_done();
         let mut f = std::io::BufWriter::new(std::fs::File::create(self.out_dir.join("cases.txt"))?);
         for c in &self.cases {
             writeln!(f, "{c}")?;
